@@ -43,8 +43,9 @@ def rust_ty(ty, first_usize=False):
     return "(%s, %s)" % (l, rust_ty(ty[2]))
 
 
-def adapters_text(chain, std):
-    """comma-separated konst adapters or dotted std adapters; returns (text, final type)"""
+def adapters_text(chain, std, hyg=None):
+    """comma-separated konst adapters or dotted std adapters; returns (text, final type).
+    hyg: name of a caller-side constant used instead of the numeric argument of take / skip (konst side only)"""
     ty = U
     parts = []
     for a in chain:
@@ -66,9 +67,9 @@ def adapters_text(chain, std):
         elif k == "rev":
             t = "rev()"
         elif k == "skip":
-            t = "skip(%d)" % n
+            t = "skip(%d)" % n if (std or not hyg) else "skip(%s + %d - %s)" % (hyg, n, hyg)
         elif k == "take":
-            t = "take(%d)" % n
+            t = "take(%d)" % n if (std or not hyg) else "take(%s + %d - %s)" % (hyg, n, hyg)
         elif k == "skip_while":
             t = "skip_while(|&%s| %s < 2)" % (p, key)
         elif k == "take_while":
@@ -150,13 +151,13 @@ def std_guard_applies(r):
     return not r["known"]
 
 
-def case(r):
+def case(r, hyg=None):
     """-> (body, exp_string, model_string)"""
     chain, cons, n = r["chain"], r["cons"], r["n"]
-    kparts, ty = adapters_text(chain, False)
+    kparts, ty = adapters_text(chain, False, hyg)
     sparts, _ = adapters_text(chain, True)
     p, key = pat_key(ty, Names())
-    pre = "const ZO: &[u64] = &[10, 20, 30];"
+    pre = "const ZO: &[u64] = &[10, 20, 30];" + (" const %s: usize = 7;" % hyg if hyg else "")
     if cons == "for_each":
         kf = ("fn k(inp: &[u64]) -> String { let mut out: Vec<u64> = Vec::new(); konst::iter::for_each!{%s in inp, copied()%s => out.push(%s); } format!(\"{:?}\", out) }"
               % (p, "".join(", " + x for x in kparts), key))
